@@ -1055,6 +1055,9 @@ GEN_SRC.update({n: gen_src(n) for n in ("SrcOrfNew",)})
 EXTRACTORS["C20"] = EXTRACTORS["C20"] + [GEN_SRC["SrcOrfNew"]]
 GEN_SRC.update({n: gen_src(n) for n in ("SrcIdxFaIter",)})
 EXTRACTORS["C12"] = EXTRACTORS["C12"] + [GEN_SRC["SrcIdxFaIter"]]
+GEN_SRC.update({n: gen_src(n) for n in ("SrcFmAccess",)})
+EXTRACTORS["C06"] = EXTRACTORS["C06"] + [GEN_SRC["SrcOcc"], GEN_SRC["SrcPrescan"], GEN_SRC["SrcLess"], GEN_SRC["SrcFmAccess"]]
+EXTRACTORS["C05"] = EXTRACTORS["C05"] + [GEN_SRC["SrcFmAccess"]]
 
 
 def main():
